@@ -74,7 +74,9 @@ class QMap(afmformats.AFMQMap):
                   cache=False)
     def feat_meta_rating(idnt):
         """Rating"""
-        if idnt._rating is None:
+        curhash = idnt.fit_properties.get("hash", "none")
+        if idnt._rating is None or idnt._rating[0] != curhash:
+            # (a rating belongs to the fit it was computed for)
             msg = "The experimental data has not been rated. Please call " \
                   + "`idnt.rate_quality` manually for {}!".format(idnt)
             warnings.warn(msg, DataMissingWarning)
